@@ -94,12 +94,14 @@ type c10Params struct {
 	via, method, user, variant string
 	issue, delay               time.Duration
 	gap                        time.Duration // > 0: the same source had fetched an earlier token, gap before the one at "issue"+gap
+	first                      time.Duration // > 0: the token was already used once, successfully or not, at this age
 }
 
 func (p c10Params) Case() explore.Case {
 	return explore.Case{Prop: "C10", Unit: "via=" + p.via + ";method=" + p.method,
 		H: append([]string{"issue=" + strconv.FormatInt(int64(p.issue), 10), "delay=" + strconv.FormatInt(int64(p.delay), 10), "user=" + p.user, "variant=" + p.variant},
-			map[bool][]string{true: {"gap=" + strconv.FormatInt(int64(p.gap), 10)}, false: nil}[p.gap > 0]...)}
+			append(map[bool][]string{true: {"gap=" + strconv.FormatInt(int64(p.gap), 10)}, false: nil}[p.gap > 0],
+				map[bool][]string{true: {"first=" + strconv.FormatInt(int64(p.first), 10)}, false: nil}[p.first > 0]...)...)}
 }
 
 func parseC10(c explore.Case) (p c10Params) {
@@ -123,6 +125,10 @@ func parseC10(c explore.Case) (p c10Params) {
 		if v, ok := strings.CutPrefix(h, "gap="); ok {
 			n, _ := strconv.ParseInt(v, 10, 64)
 			p.gap = time.Duration(n)
+		}
+		if v, ok := strings.CutPrefix(h, "first="); ok {
+			n, _ := strconv.ParseInt(v, 10, 64)
+			p.first = time.Duration(n)
 		}
 		if v, ok := strings.CutPrefix(h, "user="); ok {
 			p.user = v
@@ -216,7 +222,15 @@ func runC10(t *testing.T, c explore.Case) (res explore.Result) {
 		foreign := y2.fetchToken(issuer, "get_peers")
 		otherip := y.fetchToken(srcOther, p.via)
 		y.Take()
-		time.Sleep(p.delay)
+		if p.first > 0 && p.first < p.delay {
+			// an earlier use of the very same token (a verdict on it must not outlive the token)
+			time.Sleep(p.first)
+			y.Deliver(user, sim.Query("w0", "announce_peer", sim.M{"id": sim.IDStr(peerID), "info_hash": sim.IDStr(ihA), "port": 6880, "token": tok}))
+			y.Take()
+			time.Sleep(p.delay - p.first)
+		} else {
+			time.Sleep(p.delay)
+		}
 		res.Steps = 2
 		use, present := c10Mutate(tok, p.variant, foreign, otherip)
 		age := p.delay // age of the token that is used
@@ -258,6 +272,9 @@ func runC10(t *testing.T, c explore.Case) (res explore.Result) {
 			method = "announce_peer"
 		}
 		putsBefore, addsBefore := st.numPuts(), ps.numAdds()
+		cbMu.Lock()
+		cbBefore := callbacks
+		cbMu.Unlock()
 		ws, delivered := y.Deliver(user, sim.Query("wq", method, a))
 		if !delivered {
 			res.Viol = "not-consumed: serve loop did not take the datagram"
@@ -266,7 +283,7 @@ func runC10(t *testing.T, c explore.Case) (res explore.Result) {
 		cbMu.Lock()
 		cb := callbacks
 		cbMu.Unlock()
-		effect := st.numPuts() > putsBefore || ps.numAdds() > addsBefore || cb > 0
+		effect := st.numPuts() > putsBefore || ps.numAdds() > addsBefore || cb > cbBefore
 		var wantEffect bool // what kind of effect is expected on acceptance
 		_ = wantEffect
 		replied := len(ws) > 0
@@ -278,6 +295,9 @@ func runC10(t *testing.T, c explore.Case) (res explore.Result) {
 		desc := fmt.Sprintf("%s via %s: token %s, issued at +%v, used %v later by %s", p.method, p.via, p.variant, p.issue, p.delay, p.user)
 		if p.gap > 0 {
 			desc = fmt.Sprintf("%s via %s: two tokens issued to one source at +%v and %v later; the %s one is used %v after the second issue (%v after its own) by %s", p.method, p.via, p.issue, p.gap, map[bool]string{true: "first", false: "second"}[p.variant == "first"], p.delay, age, p.user)
+		}
+		if p.first > 0 {
+			desc += fmt.Sprintf(" (the same token had already been used once, %v after issue)", p.first)
 		}
 		incomplete := p.method == "putnoseq" || p.method == "annnoport"
 		switch {
@@ -318,7 +338,7 @@ func init() { runners["C10"] = runC10 }
 func TestC10(t *testing.T) {
 	w := explore.NewWorker("C10")
 	defer w.Finish()
-	w.SetRule("time grid: 6 issue offsets within the 5-minute rotation x 20 use delays around the 10 and 15 minute bounds (to the nanosecond) x users {same address, same IP other port, v4-mapped form} x {announce_peer, immutable put, mutable put} x token obtained by {get_peers, get}, exact token; two tokens issued to one source 1 s .. 6 min apart (3 offsets x 4 gaps x 20 delays, either token used); token mutations: 160 single-bit flips, 20 truncations, 2 extensions, empty, absent, token of a second server, token issued to another IP; foreign users (other IPv4, IPv6) with the exact token; recording peer store / BEP 44 store / announce callback observe effects; oracle demands acceptance up to 10 min, rejection beyond 15 min and for every non-exact or foreign-IP token, and reply <=> effect")
+	w.SetRule("time grid: 6 issue offsets within the 5-minute rotation x 20 use delays around the 10 and 15 minute bounds (to the nanosecond) x users {same address, same IP other port, v4-mapped form} x {announce_peer, immutable put, mutable put} x token obtained by {get_peers, get}, exact token; two tokens issued to one source 1 s .. 6 min apart (3 offsets x 4 gaps x 20 delays, either token used); a token used once at 9 / 14 / 14:59 min and again after its expiry (from the same or another port); token mutations: 160 single-bit flips, 20 truncations, 2 extensions, empty, absent, token of a second server, token issued to another IP; foreign users (other IPv4, IPv6) with the exact token; recording peer store / BEP 44 store / announce callback observe effects; oracle demands acceptance up to 10 min, rejection beyond 15 min and for every non-exact or foreign-IP token, and reply <=> effect")
 	idx := 0
 	lidx := 1000
 	if lt := linTiers["C10"]; lt != nil {
@@ -343,7 +363,7 @@ func TestC10(t *testing.T) {
 				w.BeginUnit(u, fmt.Sprintf("grid via=%s method=%s issue=%v", via, method, is))
 				for _, d := range c10Delays() {
 					for _, user := range []string{"v4", "v4b", "mapped"} {
-						run(c10Params{via, method, user, "exact", is, d, 0})
+						run(c10Params{via, method, user, "exact", is, d, 0, 0})
 					}
 				}
 				w.Flush(false)
@@ -367,6 +387,24 @@ func TestC10(t *testing.T) {
 					w.Flush(false)
 				}
 			}
+			// a token that was already used once late in its life is used again after its expiry
+			if method != "putm" {
+				u := idx
+				idx++
+				if w.Mine(u) {
+					w.BeginUnit(u, fmt.Sprintf("reuse via=%s method=%s", via, method))
+					for _, is := range []time.Duration{0, time.Second} {
+						for _, first := range []time.Duration{9 * time.Minute, 14 * time.Minute, 14*time.Minute + 59*time.Second} {
+							for _, d := range []time.Duration{15*time.Minute + 1, 16 * time.Minute, 19 * time.Minute, 21 * time.Minute} {
+								for _, user := range []string{"v4", "v4b"} {
+									run(c10Params{via: via, method: method, user: user, variant: "exact", issue: is, delay: d, first: first})
+								}
+							}
+						}
+					}
+					w.Flush(false)
+				}
+			}
 			// mutations and foreign users
 			if method == "put" {
 				u := idx
@@ -375,9 +413,9 @@ func TestC10(t *testing.T) {
 					w.BeginUnit(u, "incomplete writes via="+via)
 					for _, m2 := range []string{"putnoseq", "annnoport"} {
 						for _, v := range []string{"exact", "empty", "absent", "flip0", "flip159", "trunc19", "foreign", "otherip"} {
-							run(c10Params{via, m2, "v4", v, time.Second, time.Second, 0})
+							run(c10Params{via, m2, "v4", v, time.Second, time.Second, 0, 0})
 						}
-						run(c10Params{via, m2, "v4", "exact", time.Second, 16 * time.Minute, 0})
+						run(c10Params{via, m2, "v4", "exact", time.Second, 16 * time.Minute, 0, 0})
 					}
 					w.Flush(false)
 				}
@@ -387,11 +425,11 @@ func TestC10(t *testing.T) {
 			if w.Mine(u) {
 				w.BeginUnit(u, fmt.Sprintf("mutations via=%s method=%s", via, method))
 				for _, v := range c10Variants() {
-					run(c10Params{via, method, "v4", v, time.Second, time.Second, 0})
+					run(c10Params{via, method, "v4", v, time.Second, time.Second, 0, 0})
 				}
 				for _, user := range []string{"other", "v6"} {
 					for _, d := range []time.Duration{0, time.Second, 6 * time.Minute} {
-						run(c10Params{via, method, user, "exact", time.Second, d, 0})
+						run(c10Params{via, method, user, "exact", time.Second, d, 0, 0})
 					}
 				}
 				w.Flush(false)
